@@ -23,7 +23,7 @@ UNIT = dict(
         "ReconnectConfigBuilder::retry_on_reconnect": setter("rcconfig"),
         "ReconnectConfigBuilder::reconnect_predicate": setter("rcconfig", WRAP),
         "ReconnectConfigBuilder::connection_errors_only": setter("rcconfig", WRAP),
-        "ReconnectConfigBuilder::build": dict(),
+        "ReconnectConfigBuilder::build": dict(rules=[("R10f", -1)]),
         "MaxAttemptsSource::default@Default": dict(file="rtconfig"),
         "RetryPolicy::new": dict(file="rtpolicy"),
         "RetryLayer::new": dict(file="rtlayer"),
